@@ -86,10 +86,11 @@ def gen_case(rng, tier, idx):
         dense, sparse = 3 * lb2 + 10, rng.randint(15, 40)
         s1 = rng.choice([1, 5, 60])
         s2 = s1 * rng.choice([20, 50])
-        life = s2 * rng.randint(2, 4) + rng.choice([0, 1])
+        mult = rng.randint(1, 4)  # 1: the window is exactly [predecessor, newest] - all a purely recursive indicator needs
+        life = s2 * mult + rng.choice([0, 1])
         if life // s1 < 2 * lb2 + 4:
             s2 = s1 * (2 * lb2 + 6)
-            life = s2 * 2 + 1
+            life = s2 * mult + 1
         from datetime import datetime, timedelta
         pr = streams.prices(rng, dense + sparse, rng.choice(["walk", "spiky", "flat_runs"]))
         t, ts = datetime(2023, 6, 1, 9, 0, 0), []
